@@ -251,11 +251,48 @@ def a4(repo, res):
                         "the compound setter then sees no displacement and leaves the children behind", fn.lineno))
 
 
+def a5(repo, res):
+    """A5 LEN-PATH for the compound setters: on an object with children of other path lengths, the position / orientation setter leaves the
+    object and every child with position and orientation paths of the new length, and combines no stacks of different lengths on the way
+    (length evaluation over the cases of own length, new length and children's lengths - lenpath.py)"""
+    import lenpath
+    geo = repo.cls("BaseGeo")
+    mods = [geo.mod, repo.mod("magpylib._src.obj_classes.class_BaseTransform")]
+
+    def resolve(name):
+        for m_ in mods:
+            r = repo.resolve_name(m_, name)
+            if r and r[0] == "func":
+                return r[2]
+        return None
+    records = {}
+    for m_ in mods:
+        for c_ in m_.tree.body:
+            if isinstance(c_, ast.ClassDef) and any(ast.unparse(b).endswith("NamedTuple") for b in c_.bases):
+                records[c_.name] = [st.target.id for st in c_.body if isinstance(st, ast.AnnAssign) and isinstance(st.target, ast.Name)]
+    n, probs, und = lenpath.run_setters(geo.getters, geo.setters, resolve, records)
+    res.evaluations += n
+    if und:
+        res.ob("A5:setters", True, {"rule": "A5", "undecided": und}, nontrivial=False)
+        res.undecided.append(f"A5 LEN-PATH: a construct outside the length fragment ({und}); path lengths after the setters not decided")
+        return
+    res.ob("A5:setters keep every path at the new length", not probs, {"rule": "A5", "cases_evaluated": n, "inconsistent_cases": [f"{s_}: {t_}" for s_, _n, t_ in probs[:5]]})
+    seen = set()
+    for sample, node, txt in probs:
+        key = (norm(node)[:80] if not isinstance(node, ast.FunctionDef) else node.name, txt.split(" of ")[0][:40])
+        if key in seen:
+            continue
+        seen.add(key)
+        res.add(Finding("A5", geo.mod.rel, "BaseGeo setters", node if not isinstance(node, ast.FunctionDef) else f"{node.name} setter: path lengths", f"{txt} - for {sample}",
+                        getattr(node, "lineno", None)))
+
+
 def run(repo, res, tier):
-    res.rules = ["A1 position setter algebra", "A2 orientation setter algebra", "A3 recursion coverage / argument forwarding", "A4 position getter returns a fresh array", "M1 in-place pose writes only on the updated object", "V1 pose validators return copies"]
+    res.rules = ["A1 position setter algebra", "A2 orientation setter algebra", "A3 recursion coverage / argument forwarding", "A4 position getter returns a fresh array", "A5 LEN-PATH: setters keep every path at the new length", "M1 in-place pose writes only on the updated object", "V1 pose validators return copies"]
     frame_rules.c10_algebra(repo, res)
     a3(repo, res)
     a4(repo, res)
+    a5(repo, res)
     import origin_rules
     origin_rules.pose_mutations(repo, res, rule="M1")
     origin_rules.validators_fresh(repo, res, rule="V1", only=("check_format_input_anchor", "check_format_input_vector", "check_format_input_orientation", "make_float_array"))
